@@ -156,6 +156,34 @@ func (eng *Engine) typesPkg(path string) *types.Package {
 	return nil
 }
 
+// importByLocalName resolves a package qualifier the way the package's source files do.
+func (eng *Engine) importByLocalName(pkg *types.Package, name string) *types.Package {
+	p := eng.allPkgs[pkg.Path()]
+	if p == nil {
+		return nil
+	}
+	for _, f := range p.Syntax {
+		if strings.HasSuffix(eng.prog.Fset.Position(f.Pos()).Filename, "zz_contracts_verif.go") {
+			continue
+		}
+		for _, imp := range f.Imports {
+			path := strings.Trim(imp.Path.Value, "\"")
+			ip, ok := eng.allPkgs[path]
+			if !ok || ip.Types == nil {
+				continue
+			}
+			local := ip.Types.Name()
+			if imp.Name != nil {
+				local = imp.Name.Name
+			}
+			if local == name {
+				return ip.Types
+			}
+		}
+	}
+	return nil
+}
+
 func (eng *Engine) importAlias(pkg *types.Package, name string) *types.Package {
 	// imports renamed in source (e.g. kproto "…/proto/kardiachain/types"): consult syntax of the package
 	p := eng.allPkgs[pkg.Path()]
